@@ -60,3 +60,24 @@ package lfshttp
 //@   assumed
 //@   props C10
 //@   modifies fresh
+
+// C18: every API request built by the client asks for the LFS media type, and
+// a request with a body declares that media type and its exact length.
+//@ func (*Client).NewRequest
+//@   props C18
+//@   requires @inv c != nil
+//@   ensures result1 == nil ==> result0 != nil && result0.Header != nil && has(result0.Header, "Accept") && result0.Header["Accept"][0] == MediaType && result0.Method == method
+//@   ensures result1 == nil && body != nil ==> has(result0.Header, "Content-Type") && result0.Header["Content-Type"][0] == RequestContentType && has(result0.Header, "Content-Length")
+//@ func MarshalToRequest
+//@   props C18
+//@   requires @inv req != nil && req.Header != nil
+//@   modifies fresh, mapkey req.Header["Content-Length"], field req.ContentLength, field req.Body
+//@   ensures result == nil ==> has(req.Header, "Content-Length") && req.Body != nil && req.ContentLength >= 0
+//@ func (*Client).sshResolveWithRetries
+//@   assumed
+//@   props C18
+//@   modifies fresh
+//@ func joinURL
+//@   assumed
+//@   props C18
+//@   pure
